@@ -47,7 +47,7 @@ Print Assumptions C05_supported_no_raise.
 (* KF-olen: signature with IP option length != 0: the output has no IP options, so olen differs and nothing matches *)
 Example C05_refuted_olen :
   exists s k, parse_tcp_sig refuted_olen_sig = Ok s /\
-    parse_packet 4 refuted_olen_witness = Framed (Ok k) /\ tcp_match 35 s (sig_of k 0) = Some Exact /\
+    parse_datagram 4 refuted_olen_witness = Framed (Ok k) /\ tcp_match 35 s (sig_of k 0) = Some Exact /\
     t_type (k_tcp k) = Z.land (b_flags refuted_olen_base) 18 /\ admissible_base refuted_olen_base /\
     match imp_tcp s refuted_olen_base 0 1500 None refuted_olen_tape with
     | Ok (x, _) => oracle 35 s x <> Ok (Some Exact, 0)
@@ -58,7 +58,7 @@ Proof. exact refuted_olen. Qed.
 (* KF-unknown-kind: layout with a ?n option kind: the option is silently dropped, the layout differs *)
 Example C05_refuted_unknown_kind :
   exists s k, parse_tcp_sig refuted_unknown_kind_sig = Ok s /\
-    parse_packet 4 refuted_unknown_kind_witness = Framed (Ok k) /\ tcp_match 35 s (sig_of k 0) = Some Exact /\
+    parse_datagram 4 refuted_unknown_kind_witness = Framed (Ok k) /\ tcp_match 35 s (sig_of k 0) = Some Exact /\
     t_type (k_tcp k) = Z.land (b_flags refuted_unknown_kind_base) 18 /\ admissible_base refuted_unknown_kind_base /\
     match imp_tcp s refuted_unknown_kind_base 0 1500 None refuted_unknown_kind_tape with
     | Ok (x, _) => oracle 35 s x <> Ok (Some Exact, 0)
@@ -69,7 +69,7 @@ Proof. exact refuted_unknown_kind. Qed.
 (* KF-eol-pad: eol+n with n other than the zero padding Scapy adds up to a multiple of 4: the EOL padding length differs *)
 Example C05_refuted_eol_pad :
   exists s k, parse_tcp_sig refuted_eol_pad_sig = Ok s /\
-    parse_packet 4 refuted_eol_pad_witness = Framed (Ok k) /\ tcp_match 35 s (sig_of k 0) = Some Exact /\
+    parse_datagram 4 refuted_eol_pad_witness = Framed (Ok k) /\ tcp_match 35 s (sig_of k 0) = Some Exact /\
     t_type (k_tcp k) = Z.land (b_flags refuted_eol_pad_base) 18 /\ admissible_base refuted_eol_pad_base /\
     match imp_tcp s refuted_eol_pad_base 0 1500 None refuted_eol_pad_tape with
     | Ok (x, _) => oracle 35 s x <> Ok (Some Exact, 0)
@@ -80,7 +80,7 @@ Proof. exact refuted_eol_pad. Qed.
 (* KF-opt+: opt+ (non-zero bytes after EOL) is never produced *)
 Example C05_refuted_optplus :
   exists s k, parse_tcp_sig refuted_optplus_sig = Ok s /\
-    parse_packet 4 refuted_optplus_witness = Framed (Ok k) /\ tcp_match 35 s (sig_of k 0) = Some Exact /\
+    parse_datagram 4 refuted_optplus_witness = Framed (Ok k) /\ tcp_match 35 s (sig_of k 0) = Some Exact /\
     t_type (k_tcp k) = Z.land (b_flags refuted_optplus_base) 18 /\ admissible_base refuted_optplus_base /\
     match imp_tcp s refuted_optplus_base 0 1500 None refuted_optplus_tape with
     | Ok (x, _) => oracle 35 s x <> Ok (Some Exact, 0)
@@ -91,7 +91,7 @@ Proof. exact refuted_optplus. Qed.
 (* KF-bad: 'bad' (malformed option) is never produced *)
 Example C05_refuted_bad :
   exists s k, parse_tcp_sig refuted_bad_sig = Ok s /\
-    parse_packet 4 refuted_bad_witness = Framed (Ok k) /\ tcp_match 35 s (sig_of k 0) = Some Exact /\
+    parse_datagram 4 refuted_bad_witness = Framed (Ok k) /\ tcp_match 35 s (sig_of k 0) = Some Exact /\
     t_type (k_tcp k) = Z.land (b_flags refuted_bad_base) 18 /\ admissible_base refuted_bad_base /\
     match imp_tcp s refuted_bad_base 0 1500 None refuted_bad_tape with
     | Ok (x, _) => oracle 35 s x <> Ok (Some Exact, 0)
@@ -102,7 +102,7 @@ Proof. exact refuted_bad. Qed.
 (* KF-sack: SACK length is drawn without regard to the 40-byte option area: with other options present the header can overflow / the packet is not well framed *)
 Example C05_refuted_sack :
   exists s k, parse_tcp_sig refuted_sack_sig = Ok s /\
-    parse_packet 4 refuted_sack_witness = Framed (Ok k) /\ tcp_match 35 s (sig_of k 0) = Some Exact /\
+    parse_datagram 4 refuted_sack_witness = Framed (Ok k) /\ tcp_match 35 s (sig_of k 0) = Some Exact /\
     t_type (k_tcp k) = Z.land (b_flags refuted_sack_base) 18 /\ admissible_base refuted_sack_base /\
     match imp_tcp s refuted_sack_base 0 1500 None refuted_sack_tape with
     | Ok (x, _) => oracle 35 s x <> Ok (Some Exact, 0)
@@ -113,7 +113,7 @@ Proof. exact refuted_sack. Qed.
 (* KF-repeated-option: a value option occurring twice (e.g. ws,ws with exws from the first and the scale from the last): every copy gets the same value *)
 Example C05_refuted_repeated_option :
   exists s k, parse_tcp_sig refuted_repeated_option_sig = Ok s /\
-    parse_packet 4 refuted_repeated_option_witness = Framed (Ok k) /\ tcp_match 35 s (sig_of k 0) = Some Exact /\
+    parse_datagram 4 refuted_repeated_option_witness = Framed (Ok k) /\ tcp_match 35 s (sig_of k 0) = Some Exact /\
     t_type (k_tcp k) = Z.land (b_flags refuted_repeated_option_base) 18 /\ admissible_base refuted_repeated_option_base /\
     match imp_tcp s refuted_repeated_option_base 0 1500 None refuted_repeated_option_tape with
     | Ok (x, _) => oracle 35 s x <> Ok (Some Exact, 0)
@@ -124,7 +124,7 @@ Proof. exact refuted_repeated_option. Qed.
 (* KF-window-search: mss*N with an MSS for which MSS*N does not fit 16 bits or a free MSS that must avoid earlier divisors, and mtu*N: a satisfying window/MSS pair exists but must be searched; the code writes MSS*N or mtu*N blindly *)
 Example C05_refuted_window_search :
   exists s k, parse_tcp_sig refuted_window_search_sig = Ok s /\
-    parse_packet 4 refuted_window_search_witness = Framed (Ok k) /\ tcp_match 35 s (sig_of k 0) = Some Exact /\
+    parse_datagram 4 refuted_window_search_witness = Framed (Ok k) /\ tcp_match 35 s (sig_of k 0) = Some Exact /\
     t_type (k_tcp k) = Z.land (b_flags refuted_window_search_base) 18 /\ admissible_base refuted_window_search_base /\
     match imp_tcp s refuted_window_search_base 0 1500 None refuted_window_search_tape with
     | Ok (x, _) => oracle 35 s x <> Ok (Some Exact, 0)
